@@ -93,7 +93,7 @@ theorem readHeaderB_v2 (c : Nat) (f : FrameV2) (h : f.WF) :
 
 /-- **the 18 / 26 header bytes of a v0 / v1 message** (plain or wrapper) -/
 theorem readHeaderB_v1 (c : Nat) (m : Msg) (h : m.WF) :
-    AllOrShort readHeaderB (encH1 c m) (.v1 ⟨m.offset, m.magic, m.attributes, (encB1 m).length⟩) := by
+    AllOrShort readHeaderB (encH1 c m) (.v1 ⟨m.offset, m.magic, m.attributes, (encB1 m).length⟩ m.ts) := by
   have hbl := encB1_length m h
   have hml := msgBody_length m h
   obtain ⟨h1, hm, ha, ht, hz, hl⟩ := h
@@ -104,7 +104,7 @@ theorem readHeaderB_v1 (c : Nat) (m : Msg) (h : m.WF) :
   have hm1 : InRange M8 1 := by unfold InRange M8; omega
   rcases hm with h0 | h1'
   · have hsz : ((((4 + (msgBody m).length : Nat) : Int)) - 6).toNat = (encB1 m).length := by rw [hbl]; simp [h0]; omega
-    have b1 := aos_bind (q := fun attrs => (M.pure (HdrB.v1 ⟨m.offset, 0, attrs, ((((4 + (msgBody m).length : Nat) : Int)) - 6).toNat⟩) : M HdrB))
+    have b1 := aos_bind (q := fun attrs => (M.pure (HdrB.v1 ⟨m.offset, 0, attrs, ((((4 + (msgBody m).length : Nat) : Int)) - 6).toNat⟩ 0) : M HdrB))
       (aos_readInt8 m.attributes ha) (aos_pure _)
     have hbr : AllOrShort (hdrBranch m.offset (((4 + (msgBody m).length : Nat) : Int)) 0) _ _ := b1
     have a4 := aos_bind (q := fun magic => hdrBranch m.offset (((4 + (msgBody m).length : Nat) : Int)) magic) (aos_readInt8 0 hm0) hbr
@@ -115,13 +115,13 @@ theorem readHeaderB_v1 (c : Nat) (m : Msg) (h : m.WF) :
     have a1 := aos_bind (q := fun fo => M.bind readInt32 fun len => M.bind readInt32 fun _ => M.bind readInt8 fun magic => hdrBranch fo len magic)
       (aos_readInt64 m.offset h1) a2
     rw [hsz] at a1
-    rw [h0]
+    rw [h0, hz h0]
     exact aos_congr a1 (by simp [encH1, h0, List.append_assoc])
   · have hne : ¬ m.magic = 0 := by omega
     have hsz : ((((4 + (msgBody m).length : Nat) : Int)) - 14).toNat = (encB1 m).length := by rw [hbl]; simp [hne]; omega
-    have b2 := aos_bind (q := fun _ => (M.pure (HdrB.v1 ⟨m.offset, 1, m.attributes, ((((4 + (msgBody m).length : Nat) : Int)) - 14).toNat⟩) : M HdrB))
+    have b2 := aos_bind (q := fun ts => (M.pure (HdrB.v1 ⟨m.offset, 1, m.attributes, ((((4 + (msgBody m).length : Nat) : Int)) - 14).toNat⟩ ts) : M HdrB))
       (aos_readInt64 m.ts ht) (aos_pure _)
-    have b1 := aos_bind (q := fun attrs => M.bind readInt64 fun _ => (M.pure (HdrB.v1 ⟨m.offset, 1, attrs, ((((4 + (msgBody m).length : Nat) : Int)) - 14).toNat⟩) : M HdrB))
+    have b1 := aos_bind (q := fun attrs => M.bind readInt64 fun ts => (M.pure (HdrB.v1 ⟨m.offset, 1, attrs, ((((4 + (msgBody m).length : Nat) : Int)) - 14).toNat⟩ ts) : M HdrB))
       (aos_readInt8 m.attributes ha) b2
     have hbr : AllOrShort (hdrBranch m.offset (((4 + (msgBody m).length : Nat) : Int)) 1) _ _ := b1
     have a4 := aos_bind (q := fun magic => hdrBranch m.offset (((4 + (msgBody m).length : Nat) : Int)) magic) (aos_readInt8 1 hm1) hbr
